@@ -186,6 +186,7 @@ func (e *Engine) loadSpecFile(path string, pkg *ssa.Package) error {
 		lines = append(lines, l)
 	}
 	var cur *Contract
+	skipping := false
 	pkgName := ""
 	if pkg != nil {
 		pkgName = pkg.Pkg.Name()
@@ -216,13 +217,22 @@ func (e *Engine) loadSpecFile(path string, pkg *ssa.Package) error {
 			c.X = x
 			return c, nil
 		}
+		if skipping && kw != "package" {
+			continue
+		}
 		switch kw {
 		case "package":
-			if p := e.pkgByName[rest]; p != nil {
+			if p := e.pkgByName[rest]; p != nil && strings.HasPrefix(p.Pkg.Path(), "gitlab.com/gomidi/midi/v2") {
 				pkg = p
 				pkgName = rest
+				skipping = false
+			} else if rest == "-" {
+				pkg = nil
+				pkgName = ""
+				skipping = false
 			} else {
-				return fmt.Errorf("%s: unknown package %s", path, rest)
+				// the package is not part of this run: its specs are not needed
+				skipping = true
 			}
 		case "func":
 			key := rest
